@@ -176,6 +176,36 @@ def props_theorems(rel):
     return thms, pas
 
 
+def props_statements(rel):
+    """{theorem name: sha1 of its statement text, whitespace-normalised} for a Props.v"""
+    src = strip_comments(open(os.path.join(COQ, rel)).read())
+    out = {}
+    for m in re.finditer(r"(?ms)^\s*Theorem\s+([A-Za-z_0-9']+)(.*?)\.\s*\n\s*Proof\.", src):
+        out[m.group(1)] = hashlib.sha1(re.sub(r"\s+", " ", m.group(2)).strip().encode()).hexdigest()[:16]
+    return out
+
+
+PINS = os.path.join(ROOT, "coq", "pins.json")
+
+
+def check_pins(rel):
+    """Property theorems are pinned (tools/pin_theorems.py writes coq/pins.json, committed): a statement that was
+    changed, or a theorem that disappeared, without re-pinning is reported - a theorem cannot be weakened quietly."""
+    if not os.path.exists(PINS):
+        return []
+    pins = json.load(open(PINS)).get(rel)
+    if pins is None:
+        return ["%s has no pinned statements (run tools/pin_theorems.py)" % rel]
+    cur = props_statements(rel)
+    bad = []
+    for name, h in pins.items():
+        if name not in cur:
+            bad.append("pinned theorem %s is gone from %s" % (name, rel))
+        elif cur[name] != h:
+            bad.append("statement of %s in %s differs from its pin" % (name, rel))
+    return bad
+
+
 def coq_eval(name, preamble, exprs, shard=400, timeout=900):
     """Evaluate each Gallina expression with vm_compute in coqc; return list of printed values
     (strings), one per expr, in order.  Sharded over up to 16 coqc processes."""
@@ -450,6 +480,10 @@ def prove(run, prop_dir_files, props_rel, allow=(), extra_targets=()):
     if bad:
         run.broken.append("coq hygiene: " + "; ".join(bad[:5]))
         return False, "\n".join(bad)
+    pinbad = check_pins(props_rel)
+    if pinbad:
+        run.broken.append("theorem pins: " + "; ".join(pinbad[:5]))
+        return False, "\n".join(pinbad)
     ok, log = coq_make([props_rel] + list(extra_targets), force=[props_rel])
     thms, pas = props_theorems(props_rel)
     nob, names = count_obligations(prop_dir_files)
